@@ -12,7 +12,7 @@ LEVEL = "exploration"
 RULE = (
     "(a) Hypothesis scheduler inputs with boundary-biased deadlines (deadline - now - fastest runtime in -3..+14), strategy sets where "
     "only the slow strategy fits the free worker, for every enforcing policy (EDF, FIFO, Clockwork, TetriSched-CPLEX, ILP task-by-task, "
-    "TetriSched-Gurobi); the returned plan is judged and, for the Gurobi-backed planners, up to 300 feasible points of the captured model "
+    "TetriSched-Gurobi; TetriSched-CPLEX also in batching mode with per-member deadlines); the returned plan is judged and, for the Gurobi-backed planners, up to 300 feasible points of the captured model "
     "(solution pool with a zero objective) plus an adversarial re-solve maximising lateness are decoded through the scheduler's own "
     "variables; (b) generated end-to-end runs of the planners with exact runtimes. Non-trivial = an instance with a task within +-1 of "
     "the admission boundary / a run in which a task completed; distinct by case hash."
